@@ -218,14 +218,18 @@ class WebSocketApp:
         self.last_ping_tm = self.last_pong_tm = float(0)
 
     def _send_ping(self) -> None:
-        if self.stop_ping.wait(self.ping_interval) or self.keep_running is False:
+        # this thread serves one connection: it keeps its own stop event and
+        # socket, a later connection's must not revive it
+        stop_ping = self.stop_ping
+        sock = self.sock
+        if stop_ping.wait(self.ping_interval) or self.keep_running is False:
             return
-        while not self.stop_ping.wait(self.ping_interval) and self.keep_running is True:
-            if self.sock:
+        while not stop_ping.wait(self.ping_interval) and self.keep_running is True:
+            if self.sock and self.sock is sock:
                 self.last_ping_tm = time.time()
                 try:
                     _logging.debug("Sending ping")
-                    self.sock.ping(self.ping_payload)
+                    sock.ping(self.ping_payload)
                 except Exception as e:
                     _logging.debug(f"Failed to send ping: {e}")
 
